@@ -145,18 +145,15 @@ def run(ctx):
         ctx.anchor_lost(rule, 'truncate: split_by_mut')
     for bi, t, e in sb:
         a0, a1 = e[2][0], e[2][1]
-        # both derive from the same zip item: item.1 (probs) and item.0 (infosets) of zip(player_infosets.iter(), probs.iter_mut())
-        z = q.find_sub(e, lambda s: q.is_call(s, 'zip'))
-        ok = False
-        detail = 'no zip of player_infosets with probs found'
-        if z is not None:
-            l, r = facts.show(norm(z[2][0])), facts.show(norm(z[2][1]))
-            uses_info = q.find_sub(a1, lambda s: s[0] == 'field' and s[2] == '0' and q.find_sub(s, lambda u: u == z) is not None) is not None
-            uses_probs = q.find_sub(a0, lambda s: s[0] == 'field' and s[2] == '1' and q.find_sub(s, lambda u: u == z) is not None) is not None
-            cf, _ = q.closure_of(lib, a1)
-            lens_ok = cf is not None and (short(cf.name) == 'num_actions' or any(short(p) == 'num_actions' for _, _, p in cf.calls()))
-            ok = 'player_infosets' in l and 'probs' in r and uses_info and uses_probs and lens_ok
-            detail = 'zip(%s, %s); slice from item.1=%s, lengths from item.0=%s via num_actions=%s' % (l[:60], r[:40], uses_probs, uses_info, lens_ok)
+        # the slice (player p's probs) and the lengths (num_actions of player p's infosets) belong to the same player
+        same, how = q.same_player(a0, a1, 'probs', 'player_infosets')
+        cf, _ = q.closure_of(lib, a1)
+        lens_ok = cf is not None and (short(cf.name) == 'num_actions' or any(short(p) == 'num_actions' for _, _, p in cf.calls()))
+        detail = '%s; lengths via num_actions: %s' % (how, lens_ok)
+        if same is None or (same and not lens_ok):
+            ctx.anchor_lost(rule, 'truncate: pairing of probs with player_infosets', detail)
+            continue
+        ok = same and lens_ok
         ctx.verdict(ok, rule, '%s:%s' % (rule, q.top(f.name)),
                     'each player\'s probability vector is split by num_actions of that same player\'s infosets, in order', f.where(bi), detail,
                     breaks='slices straddle infoset boundaries: renormalisation mixes infosets')
